@@ -131,7 +131,8 @@ func RichDoc(r *kit.Rand, repoDir string) ([]byte, *RichDocInfo, error) {
 		}
 	}
 	if r.Bool() {
-		img := image.NewGray(image.Rect(0, 0, 16, 16))
+		side := kit.Pick(r, []int{16, 128})
+		img := image.NewGray(image.Rect(0, 0, side, side))
 		for i := range img.Pix {
 			img.Pix[i] = byte(r.Intn(256))
 		}
@@ -144,7 +145,7 @@ func RichDoc(r *kit.Rand, repoDir string) ([]byte, *RichDocInfo, error) {
 			filt = pdf.Array{pdf.Name("ASCIIHexDecode"), pdf.Name("DCTDecode")}
 			body = hex
 		}
-		w.Put(w.Alloc(), pdf.NewStream(pdf.Dict{"Filter": filt, "Subtype": pdf.Name("Image"), "Width": pdf.Integer(16), "Height": pdf.Integer(16)}, body))
+		w.Put(w.Alloc(), pdf.NewStream(pdf.Dict{"Filter": filt, "Subtype": pdf.Name("Image"), "Width": pdf.Integer(side), "Height": pdf.Integer(side)}, body))
 		info.Extras = append(info.Extras, "dct-stream")
 	}
 	if repoDir != "" && r.Bool() {
